@@ -58,12 +58,13 @@ func (c *Ctx) senders() []*ssa.Function {
 		}
 		w, q := false, false
 		for _, call := range ir.Calls(fn) {
-			if mCallee(r.RingWrite)(call) {
-				w = true
-			}
 			if ir.IsMethod(call.Common(), pkgSessions, "Ackqueue", "Wait") {
 				q = true
 			}
+		}
+		// the ring write may sit in a small shared helper ("write and wrap the error")
+		if q && len(c.hostedCalls(fn, mCallee(r.RingWrite), 1)) > 0 {
+			w = true
 		}
 		if w && q && fn != r.Handler {
 			// the QoS 2 receive path (Pub2in.Wait then PUBREC) is not a sender
@@ -93,7 +94,10 @@ func (c *Ctx) registerBeforeSend() {
 	c.R.Count("sender functions (write + register)", len(ss))
 	c.R.Floor("sender functions (publish, subscribe, unsubscribe, ping)", len(ss), 4)
 	for _, fn := range ss {
-		g := paths.New(c.P, fn, 0)
+		g := paths.New(c.P, fn, 1)
+		g.Expand = func(callee *ssa.Function, site ssa.CallInstruction) bool {
+			return callee != r.RingWrite && recvNamed(callee) == "service"
+		}
 		write := nodeM(mCallee(r.RingWrite))
 		reg := nodeM(mMethod(pkgSessions, "Ackqueue", "Wait"))
 		key := fname(fn) + ":register-before-send"
@@ -376,12 +380,8 @@ func (c *Ctx) forwardedIDs() {
 	c.useRules(ruleP9)
 	// forwarders: the closure stored in service.onpub, and the retained-delivery loop of the SUBSCRIBE handler
 	var fwd []*ssa.Function
-	if r.Start != nil {
-		for _, an := range r.Start.AnonFuncs {
-			if namedName(an.Signature.Params().At(0).Type()) == "PublishMessage" {
-				fwd = append(fwd, an)
-			}
-		}
+	if r.Forward != nil {
+		fwd = append(fwd, r.Forward)
 	}
 	if sub := c.subscribeHandler(); sub != nil {
 		fwd = append(fwd, sub)
@@ -397,6 +397,9 @@ func (c *Ctx) forwardedIDs() {
 			continue
 		}
 		key := fname(fn) + ":forwarded-publish-gets-own-id"
+		if fn == r.Forward {
+			key = "onpub-forwarder:forwarded-publish-gets-own-id" // keyed by role: a closure or a method
+		}
 		var bad []paths.Node
 		for _, sn := range sends {
 			a := paths.CallAt(sn).Common().Args
